@@ -207,6 +207,21 @@ def subspaces(tier):
     empt = [dict(a, **b) for a in ({'s': True, 'r': (0, 0), 'm': 'ODD'}, {'s': True, 'r': (0, 0), 'm': 'BYTE3'}, {'s': True, 'r': (0, 2), 'm': 'BYTE3'}, {'s': True, 'r': (0, 0), 'm': 'WORD1'})
             for b in ({}, {'S': 2}, {'S': -4})]
     subs.append(('one-record x checksum-on-empty-image', cases([0x41], 1, empt)))
+    # lane modes with a window that starts off zero: start and length are whole lane groups in BYTES (the start address is scaled
+    # by the granularity before the lane predicate is applied), one record and two records of the same family
+    def lanewin():
+        W = {0x41: [(4, 19), (8, 15)], 0x70: [(2, 9), (2, 17), (4, 11), (6, 13)], 0x76: [(1, 4), (2, 9), (3, 6)]}
+        for c in (0x41, 0x70, 0x76):
+            one = [x for x in one_records([c]) if x[1] == 1]
+            two = [x for x in one if x[3] in (1, 2)]
+            lays = [[a] for a in one] + [[a, b] for a in two for b in two if a[2] + a[3] <= b[2]]
+            for l in lays:
+                for m in LANES:
+                    if m == 'ALL':
+                        continue
+                    for w in W[c]:
+                        yield {'files': [{'recs': [list(x) for x in l], 'entry': None, 'off': 0}], 'opt': {'m': m, 'r': w}}
+    subs.append(('lanes x windows-off-zero', lanewin()))
     if q:
         # chained merges of the overlap bookkeeping need three records (a new record overlapping one neighbour and abutting the other)
         subs.append(('three-records-8080', cases([0x41], 3, [{}, {'r': (0, 15)}, {'l': 0}])))
